@@ -133,6 +133,22 @@ pairs = [(0xFF00, d.CFindRSPMessage, 'Pending'), (0xFF01, d.CFindRSPMessage, 'Pe
          (0xB000, d.CStoreRSPMessage, 'Warning'), (0xB007, d.CStoreRSPMessage, 'Warning'),
          (0xA700, d.CFindRSPMessage, 'Failure'), (0xC123, d.CStoreRSPMessage, 'Failure'),
          (0xA801, d.CMoveRSPMessage, 'Failure')]
+# a service-specific registration made by the application is honoured for EVERY message class (also for those the
+# library itself has no specific entries for), single codes and ranges, and stays out of the other classes
+import inspect
+classes = sorted({c for c in vars(d).values() if inspect.isclass(c) and getattr(c, 'command_field', None) is not None},
+                 key=lambda c: (c.command_field, c.__name__))
+for i, cls_ in enumerate(classes):
+    code = 0x6100 + 0x10 * i
+    before = statuses.Status(code, cls_).status_type
+    statuses.add_status(code, 'Warning', 'private warning', command=cls_)
+    statuses.add_status(code + 1, 'Pending', 'private pending range', end=code + 4, command=cls_)
+    got = [statuses.Status(code, cls_).status_type, statuses.Status(code + 1, cls_).status_type,
+           statuses.Status(code + 4, cls_).status_type, statuses.Status(code + 5, cls_).status_type,
+           statuses.Status(code).status_type, statuses.Status(code, classes[(i + 1) %% len(classes)]).status_type]
+    want = ['Warning', 'Pending', 'Pending', before, before, before]
+    if got != want:
+        bad.append('per-command registration for {0}: 0x{1:04X}.. classified {2}, expected {3}'.format(cls_.__name__, code, got, want))
 # a status type given as a str SUBCLASS (an enum member, say) is the same type name
 class Kind(str):
     pass
@@ -166,7 +182,10 @@ def metamorphic(ctx):
     ctx.case(('metamorphic', 'precedence'), True, labels=('metamorphic-precedence',),
              sample={'metamorphic': 'general registration conflicting with 9 service-specific codes'})
     bad = line[0][4:]
-    if bad and 'str subclass' in bad:
+    if bad and 'per-command registration' in bad:
+        ctx.fail('C18:add-status-command', 'a status registered for one command is not classified as registered: ' + bad,
+                 {'kind': 'metamorphic'})
+    elif bad and 'str subclass' in bad:
         ctx.fail('C18:status-type-subclass', 'a status registered with a str-subclass type name is classified inconsistently: ' + bad,
                  {'kind': 'metamorphic'})
     elif bad:
